@@ -1,11 +1,13 @@
 package midicatdrv
 
 import (
+	"errors"
 	"fmt"
 	"io"
 	"os"
 	"os/exec"
 	"sync"
+	"time"
 
 	"gitlab.com/gomidi/midi/v2/drivers"
 )
@@ -23,7 +25,11 @@ type out struct {
 	wr     *io.PipeWriter
 	rd     *io.PipeReader
 	cmd    *exec.Cmd
+	ended  chan struct{} // closed when the process has ended
 }
+
+// closeTimeout is the time that the process gets to end by itself when the port is closed
+const closeTimeout = 2 * time.Second
 
 func (o *out) fireCmd() error {
 	o.Lock()
@@ -46,10 +52,12 @@ func (o *out) fireCmd() error {
 
 	// when the process ends by itself (e.g. it crashed), nobody consumes the pipe anymore:
 	// close its reading side, so that Send returns an error instead of blocking forever
-	go func(proc *os.Process, rd *io.PipeReader) {
+	o.ended = make(chan struct{})
+	go func(proc *os.Process, rd *io.PipeReader, ended chan struct{}) {
 		proc.Wait()
 		rd.Close()
-	}(o.cmd.Process, o.rd)
+		close(ended)
+	}(o.cmd.Process, o.rd, o.ended)
 
 	return err
 }
@@ -105,8 +113,20 @@ func (o *out) Close() (err error) {
 
 	o.Lock()
 	defer o.Unlock()
+	if o.cmd == nil {
+		return nil
+	}
+	// end of input: the process sends what it has got so far and ends by itself. Killing it at once
+	// would throw away the messages that Send has accepted but the process has not read yet.
 	o.wr.Close()
-	err = o.cmd.Process.Kill()
+	select {
+	case <-o.ended:
+	case <-time.After(closeTimeout):
+		err = o.cmd.Process.Kill()
+		if errors.Is(err, os.ErrProcessDone) {
+			err = nil
+		}
+	}
 	o.cmd = nil
 	o.rd.Close()
 	o.wr = nil
